@@ -17,7 +17,8 @@ from vf.refsem import pr
 LEVEL = "exploration"
 
 IMPORTS = ('let lists = import "std/lists.ucg";\nlet tuples = import "std/tuples.ucg";\nlet strings = import "std/strings.ucg";\n'
-           'let f = import "std/functional.ucg";\nlet schema = import "std/schema.ucg";\nlet plus1 = func (x) => x + 1;\nlet seven = func () => 7;\n')
+           'let f = import "std/functional.ucg";\nlet schema = import "std/schema.ucg";\nlet plus1 = func (x) => x + 1;\nlet seven = func () => 7;\n'
+           'let cbase = {xs = [1, 2, 3], n = 0, r = [], o = {xs = [9]}};\n')
 
 # python values <-> mini-AST literals / reference values
 
@@ -189,6 +190,21 @@ def calls(thorough):
         for v in svals:
             for partial in (True, False):
                 yield "schema.shaped", "schema.shaped{val = %s, shape = %s, partial = %s}" % (S(v), S(sh), "true" if partial else "false"), ref_shaped(v, sh, partial)
+    # lists against list shapes: every list of 1..3 elements over {conforming, conforming other type, not conforming, nested} — the element that
+    # does not conform stands first, in the middle and last
+    lelems = [1, "s", True, [1], {"a": 1}]
+    for sh in ([0], [0, ""], [[0]], [{"a": 0}]):
+        for n in range(1, 4):
+            for t in itertools.product(lelems, repeat=n):
+                yield "schema.shaped-list", "schema.shaped{val = %s, shape = %s}" % (S(list(t)), S(sh)), ref_shaped(list(t), sh, True)
+        for t in itertools.product(lelems, repeat=2):
+            yield "schema.shaped-list-nested", "schema.shaped{val = %s, shape = %s}" % (S({"l": list(t)}), S({"l": sh})), ref_shaped({"l": list(t)}, {"l": sh}, True)
+    # a module-style helper called inside a tuple copy, and `self` used by a later field of the same copy
+    yield "helpers-inside-a-copy", "cbase{first = lists.slice{end = 1, list = [7, 8, 9]}, n = lists.len(self.xs)}.n", 3
+    yield "helpers-inside-a-copy", "cbase{parts = strings.ops{str = \"a-b\"}.split_on{on = \"-\"}, n = lists.len(self.xs)}.n", 3
+    yield "helpers-inside-a-copy", "cbase{flds = tuples.fields{tpl = {a = 1}}, n = lists.len(self.xs)}.n", 3
+    yield "helpers-inside-a-copy", "cbase{o = self.o{cut = lists.slice{end = 0, list = [7, 8]}, n = lists.len(self.xs)}}.o.n", 1
+    yield "helpers-inside-a-copy", "cbase{z = lists.zip{list1 = [1], list2 = [2]}, r = lists.reverse(self.xs)}.r", [3, 2, 1]
     typesets = [[0], [0, ""], ["", {"a": 0}], [{"a": 0}, {"b": ""}], [[], 0]]
     for ts in typesets:
         for v in svals:
